@@ -3,13 +3,14 @@ CONSTANTS
   Default = "en"
   HeaderToks = {"fr", "it"}
   MaxCtx = 3
-  MaxViews = 4
+  MaxViews = 3
   MaxAccs = 2
   Mode = "c16"
-  AccSet = "wide"
+  AccSet = "base"
   SubVariants = "small"
-  MaxHist = 4
+  MaxHist = 99
 SPECIFICATION MCSpec
-INVARIANTS TypeOK EmitCases
-CONSTRAINT HistBound
+INVARIANTS TypeOK
+PROPERTIES SetIsolation CreateIsolation
+VIEW NoHist
 CHECK_DEADLOCK FALSE
